@@ -2,7 +2,8 @@
 
 spec/C08_Envelope.tla holds three small machines:
   A  symbolic acceptance model (Seal, attacker edits of the wire form, the five consumers); the
-     statement is the invariant BindingA; five deliberately broken acceptance rules must violate it;
+     statement is the invariant BindingA; seven deliberately broken acceptance rules (evaluated by TLC on every
+     consume transition) must each accept unsealed content somewhere; the attacker also RE-ENCODES terms;
   B  makeUnsigned transcribed over a two-letter alphabet: injectivity over all triples of strings of
      length <= 3 and non-injectivity of the un-prefixed variants are evaluated by TLC, and every pair
      of triples colliding under a broken variant becomes a "shifted boundary" transition;
@@ -96,15 +97,18 @@ def run(ctx):
     beh = ctx.sub("beh")
     jobs = [
         # A: invariants and every transition printed, in one run
-        (ctx, "A-edges", "C08_MC", _cfg("A", inv="TypeOKA BindingA HonestA RoundTripA", edges=True), None),
+        # (split by the family of the primary envelope: three runs print a third of the graph each)
+        (ctx, "A-edges-peer", "C08_MC", _cfg("A", {"PrimaryFams": '{"peer"}'}, inv="TypeOKA BindingA HonestA RoundTripA", edges=True), None),
+        (ctx, "A-edges-rsvp", "C08_MC", _cfg("A", {"PrimaryFams": '{"rsvp"}'}, inv="TypeOKA BindingA HonestA RoundTripA", edges=True), None),
+        (ctx, "A-edges-test", "C08_MC", _cfg("A", {"PrimaryFams": '{"test"}'}, inv="TypeOKA BindingA HonestA RoundTripA", edges=True), None),
         (ctx, "B-edges", "C08_MCB", _cfg("B", edges=True), None),
         (ctx, "C-edges", "C08_MC", _cfg("C", inv="TypeOKC", props="AxiomC IdentityC", edges=True), None),
     ]
-    for v in BROKEN:
-        jobs.append((ctx, "A-broken-" + v, "C08_MC", _cfg("A", {"Variant": '"%s"' % v}, inv="BindingA"), "BindingA"))
+    # (the broken acceptance rules are evaluated by TLC on every consume transition of the A-edges run - op.brk)
     # (the reachability guards Reach* of the spec are evaluated on the printed graphs below)
     # a deeper attacker, exhaustive only (not printed): three edits (63 k states); thorough: four (832 k)
-    jobs.append((ctx, "A-deep3", "C08_MC", _cfg("A", {"MaxEdits": 3}, inv="TypeOKA BindingA HonestA RoundTripA"), None))
+    if thorough:   # (a design-level fact about the fixed model: 81 k states; the quick tier checks two edits)
+        jobs.append((ctx, "A-deep3", "C08_MC", _cfg("A", {"MaxEdits": 3}, inv="TypeOKA BindingA HonestA RoundTripA"), None))
     # at most 4 TLC workers at a time: a pool of four single-worker runs, then (thorough) two 2-worker runs
     # the byte-level test needs nothing from TLC: build the test binary and run it meanwhile
     goenv.go_test(ctx, PKG, "^$", timeout=1200)   # build once
@@ -112,24 +116,27 @@ def run(ctx):
     # harness tests run concurrently; write it once and reuse the path
     ov = goenv.make_overlay(ctx)
     goenv.make_overlay = lambda _ctx, _p=ov: _p
-    tpool = cf.ThreadPoolExecutor(max_workers=3)
-    fb = tpool.submit(goenv.run_harness, ctx, PKG, "^TestVerifC08Bytes$", timeout=1500)
-    # the printing runs are on the critical path (graph -> behaviours -> replay): they go first and the
-    # replay starts as soon as they are done, while the guard / deep runs continue in the pool
+    if thorough:
+        # shifted-boundary pairs over strings of length <= 3 (2940 sealed triples; printed, so one worker) and
+        # a four-edit attacker, exhaustive only
+        jobs.insert(1, (ctx, "B3-edges", "C08_MCB", _cfg("B", {"WalkLen": 3}, edges=True), None))
+        jobs.append((ctx, "A-deep4", "C08_MC", _cfg("A", {"MaxEdits": 4}, inv="TypeOKA BindingA HonestA RoundTripA"), None))
+    # The printing runs are on the critical path (graph -> behaviours -> replay): they go first and the replay
+    # starts as soon as they are done, while the deep runs continue in the pool.  At most four single-worker
+    # TLC runs at a time.  The pool forks its workers at the first submit, BEFORE any thread runs a
+    # subprocess (a worker forked later would inherit the pipe of a running `go test` and keep it open).
     ppool = cf.ProcessPoolExecutor(max_workers=4)
     futs = [(j[1], ppool.submit(_job, j)) for j in jobs]
-    results = {n: f.result() for n, f in futs[:3]}
-    if thorough:
-        big = [(ctx, "A-deep4", "C08_MC", _cfg("A", {"MaxEdits": 4}, inv="TypeOKA BindingA HonestA RoundTripA"), None, 2),
-               # shifted-boundary pairs over strings of length <= 3 (2940 sealed triples)
-               (ctx, "B3-edges", "C08_MCB", _cfg("B", {"WalkLen": 3}, edges=True), None, 2)]
-        with cf.ProcessPoolExecutor(max_workers=2) as ex:
-            results.update({r["name"]: r for r in ex.map(_job, big)})
+    tpool = cf.ThreadPoolExecutor(max_workers=3)
+    fb = tpool.submit(goenv.run_harness, ctx, PKG, "^TestVerifC08Bytes$", timeout=1500)
+    need = {"A-edges-peer", "A-edges-rsvp", "A-edges-test", "B-edges", "C-edges", "B3-edges"}
+    results = {n: f.result() for n, f in futs if n in need}
 
     log("C08: printing TLC runs done at %.1fs" % ctx.wall())
 
     # ---- graphs, vacuity on the printed graphs, behaviours
-    gA = graph.Graph(results["A-edges"]["inits"], results["A-edges"]["edges"])
+    aparts = [results["A-edges-" + f] for f in ("peer", "rsvp", "test")]
+    gA = graph.Graph(sum((r["inits"] for r in aparts), []), sum((r["edges"] for r in aparts), []))
     bname = "B3-edges" if thorough else "B-edges"
     gB = graph.Graph(results[bname]["inits"], results[bname]["edges"])
     gC = graph.Graph(results["C-edges"]["inits"], results["C-edges"]["edges"])
@@ -141,6 +148,13 @@ def run(ctx):
     for _s, op, _t in gA.edges:
         if op["name"] == "consume":
             accA[(op["kind"], op["acc"])] = accA.get((op["kind"], op["acc"]), 0) + 1
+    brk = {}
+    for _s, op, _t in gA.edges:
+        for v in op.get("brk", ()):
+            brk[v] = brk.get(v, 0) + 1
+    for v in BROKEN:
+        if not brk.get(v):
+            raise MachineryError("vacuity guard: the broken acceptance rule %s never accepts unsealed content in the model" % v)
     for kind in ("untyped", "typed", "pmem", "pds", "voucher"):
         if not accA.get((kind, "yes")) or not accA.get((kind, "no")):
             raise MachineryError("vacuous: consumer %s never accepts / never rejects in the part A graph" % kind)
@@ -206,8 +220,9 @@ def run(ctx):
     fk = tpool.submit(goenv.run_harness, ctx, PKG, "^TestVerifC08Keys$", inputs=beh, timeout=1500)
     try:
         env, byt, key = fe.result(), fb.result(), fk.result()
-        for n, f in futs[3:]:
-            results[n] = f.result()
+        for n, f in futs:
+            if n not in results:
+                results[n] = f.result()
     finally:
         tpool.shutdown(wait=True)
         ppool.shutdown(wait=True)
@@ -249,11 +264,12 @@ def run(ctx):
         states, trans, env["replayed"] + byt["replayed"] + key["replayed"],
         (env.get("samples") or [])[:1] + (byt.get("samples") or [])[:1] + (key.get("samples") or [])[:1],
         exhaustive=True,
-        checker_cmd="tlc C08_MC.tla / C08_MCB.tla (template C08_MC.cfg; parts A, B, C; broken variants %s must violate BindingA)" % ",".join(BROKEN),
+        checker_cmd="tlc C08_MC.tla / C08_MCB.tla (template C08_MC.cfg; parts A, B, C; broken acceptance rules %s evaluated per transition)" % ",".join(BROKEN),
         tlc_runs={n: {"distinct": r["distinct"], "generated": r["generated"], "wall_s": r["wall"], "violated": r["violated"]}
                   for n, r in sorted(results.items())},
         partA={"states": gA.n_states(), "transitions": gA.n_edges(), "walks": len(wA), "edge_kinds": kA,
-               "consume_expectations": {"%s/%s" % k: v for k, v in sorted(accA.items())}},
+               "consume_expectations": {"%s/%s" % k: v for k, v in sorted(accA.items())},
+               "wrong_acceptances_of_broken_rules": brk, "reach_guards": reach},
         partB={"injectivity": stB, "sealed_triples": gB.n_states(), "transitions": gB.n_edges(), "colliding_pairs_by_variant": why},
         partC={"states": gC.n_states(), "transitions": gC.n_edges(), "walks": len(wC), "edge_kinds": kC,
                "conversion_functions": sorted(convs), "verify_expectations": {str(k): v for k, v in ver.items()}},
@@ -270,7 +286,7 @@ def run(ctx):
         "symbolic cryptography: signatures are terms, Verify(k',m',Sign(k,m)) <=> k'=k /\\ m'=m; bit-level correctness of Ed25519/ECDSA/secp256k1/RSA primitives is trusted, exercised only on the concrete cases listed in the coverage",
         "golang/protobuf decoding of the envelope is the oracle for what an edited wire form contains",
         "bounded: at most %d attacker edits per behaviour (replayed: 2), strings of length <= 3 over a two-letter alphabet for injectivity, <= %d for the replayed shifted-boundary pairs; RSA keys are generated once per run (2048%s)"
-        % (4 if thorough else 3, 3 if thorough else 2, " and 3072" if thorough else ""),
+        % (4 if thorough else 2, 3 if thorough else 2, " and 3072" if thorough else ""),
         "ConsumeTypedEnvelope does not compare the wire payload type with the destination record's codec (documented caller responsibility); the statement only requires the reported type to be the sealed one",
         "the relay voucher consumer is record.ConsumeEnvelope with the voucher domain plus the *ReservationVoucher type assertion, as in circuitv2/client; the client's further checks (relay ID, own ID) need a live host and are out of scope",
     ]}
@@ -279,7 +295,7 @@ def run(ctx):
 MANIFEST = {
     "technique": "TLA+ spec (C08_Envelope.tla: symbolic envelope acceptance model with attacker edits, transcribed makeUnsigned with TLC-checked injectivity, signature/peer-ID theory as a form graph) model-checked exhaustively with TLC; every transition of the three state graphs replayed on the real core/record, core/crypto, core/peer, both address books and the relay voucher record for all four key types; abstract field edits concretised as every bit/byte/protobuf-level edit of real envelopes with the expectation computed from the decoded content",
     "category": "model_checking",
-    "text": "The statement is an unforgeability claim over all inputs. The specification states it once, symbolically: whatever a consumer accepts is a (key, domain, type, payload) tuple that the holder of that key sealed, and a peer store additionally needs the record's peer ID to be the ID of the signing key (invariant BindingA over an attacker who replaces, swaps, truncates and re-signs fields). TLC checks it exhaustively for the bounded attacker and confirms that five broken acceptance rules (domain, type, payload, key or owner not bound) each violate it. The one place where bytes matter - the signed pre-image - is transcribed (uvarint length prefix on each component) and TLC evaluates its injectivity over all 3375 triples of strings of length <= 3 over two letters that coincide with the length bytes, and the non-injectivity of the un-prefixed variants; the colliding pairs become shifted-boundary attacks. The replay binds model and code: every abstract transition runs on the real functions with fresh keys of every type, every abstract 'edit field' is expanded to every bit of the marshalled envelope and protobuf field surgery, and L1 monitors computed only from return values decide violations.",
+    "text": "The statement is an unforgeability claim over all inputs. The specification states it once, symbolically: whatever a consumer accepts is a (key, domain, type, payload) tuple that the holder of that key sealed, and a peer store additionally needs the record's peer ID to be the ID of the signing key (invariant BindingA over an attacker who replaces, swaps, truncates and re-signs fields). TLC checks it exhaustively for the bounded attacker and confirms that seven broken acceptance rules (domain, type, payload, key or owner not bound, alternative signature encodings not bound to the key, look-alike IDs taken for the real ID) each accept unsealed content. The attacker also re-encodes terms it knows (Dolev-Yao): signatures in every wire format (DER, raw, compact recoverable, high-S, other padding/hash/scheme), keys in non-canonical serialisations, and look-alike peer IDs (identity multihashes over any serialisation of a key); Verify may accept an encoding only of Sign(K,m) under K for m, and x.MatchesPublicKey(K) implies x = IDFromPublicKey(K) at every consumer (address books, key books). The one place where bytes matter - the signed pre-image - is transcribed (uvarint length prefix on each component) and TLC evaluates its injectivity over all 3375 triples of strings of length <= 3 over two letters that coincide with the length bytes, and the non-injectivity of the un-prefixed variants; the colliding pairs become shifted-boundary attacks. The replay binds model and code: every abstract transition runs on the real functions with fresh keys of every type, every abstract 'edit field' is expanded to every bit of the marshalled envelope and protobuf field surgery, and L1 monitors computed only from return values decide violations.",
     "note": "Trusted: TLC; golang/protobuf as the decoder that defines what an edited wire form contains; the signature primitives (only the (key,message) case matrix and every single-bit mutation of short messages, signatures and marshalled keys are exercised). Signature-encoding malleability (a mutated signature that still verifies for the same key and message) is reported as L2 divergence, not as a violation. Deterministic in its verdict per seed; key material itself is fresh randomness.",
     "engines": [{"name": "C08_Envelope", "path": "spec/C08_Envelope.tla", "serves_properties": ["C08"],
                  "kind_free_text": "TLA+ spec + TLC exhaustive (three machines) + full-transition replay + byte-level concretisation"}],
